@@ -15,15 +15,28 @@ THEOREMS = ["links_symmetric", "links_point_to_existing", "link_buckets_sorted",
             "schema_links_symmetric", "schema_self_links_symmetric", "schema_links_point_to_existing",
             "schema_rc_agree", "schema_setlinks_exact", "schema_setlinks_missing", "schema_delete_unlinks",
             "schema_delete_unlinks_rc", "schema_delete_succeeds_iff", "schema_delete_failure_changes_nothing",
-            "schema_naming_irrelevant", "keysize_small_ids_unchanged"]
+            "schema_naming_irrelevant", "keysize_small_ids_unchanged",
+            # refused deletes tolerated inside a committing transaction, restricting fk, creates through a child
+            # store that persist the parent's link field (C05/Restrict.lean)
+            "refused_delete_changes_no_links", "restricted_delete_refused", "tolerated_refusal_changes_nothing",
+            "restrict_coherent", "restrict_collection_is_two_store_model", "restrict_links_symmetric",
+            "restrict_self_links_symmetric", "restrict_rc_agree"]
 
 LIST_FIELDS = {"cl": [3], "u": [3], "al": [3], "rl": [3], "sl": [3]}
-G_LIST_FIELDS = {"cl": [4], "u": [4], "al": [4], "rl": [4], "sl": [4]}
-G_STORE_OPS = ("c", "cl", "u", "d")
+G_LIST_FIELDS = {"cl": [4], "u": [4], "al": [4], "rl": [4], "sl": [4], "crl": [5], "cp": [4]}
+G_STORE_OPS = ("c", "cl", "u", "d", "cr", "crl", "cp", "dt")
+
+
+def _is_g(case):
+    """schema-parametrised case lines: G, and R (G plus a restricting fk / tolerated refused deletes)"""
+    return case.startswith("G ") or case.startswith("R ")
 
 
 def _unhex(w):
-    return "" if w == "-" else bytes.fromhex(w).decode("latin-1")
+    try:
+        return "" if w == "-" else bytes.fromhex(w).decode("latin-1")
+    except ValueError:
+        return w
 
 
 def normalise(impl):
@@ -41,7 +54,7 @@ def normalise(impl):
 
 def nontrivial(case, impl):
     # non-trivial: some committed state of the history holds at least one link or count
-    if case.startswith("G "):
+    if _is_g(case):
         for tx in impl.split(" "):
             p = tx.split("|")
             if len(p) == 3 and "#D" in p[2] and "^" in p[2].split("#D", 1)[1]:
@@ -59,13 +72,17 @@ def nontrivial(case, impl):
 
 def _head(case):
     """number of leading fields before the transactions: kind + pools"""
-    return 2 if case.startswith("S ") else 4 if case.startswith("G ") else 3
+    return 2 if case.startswith("S ") else 4 if _is_g(case) else 3
 
 
 def histogram(case, impl, h):
     f = case.split(" ")
     h["kind:" + f[0]] = h.get("kind:" + f[0], 0) + 1
-    if f[0] == "G":
+    if f[0] in ("G", "R"):
+        if "~" in f[1]:
+            t = "schema:restricting-fk" if f[1].split("~", 1)[1] in ("AB", "BA") else "schema:no-fk"
+            h[t] = h.get(t, 0) + 1
+            f = [f[0], f[1].split("~", 1)[0]] + f[2:]
         colls = [] if f[1].split("@")[0] in ("-", "") else f[1].split("@")[0].split(",")
         if "@" in f[1]:
             h["schema:extended-child-store"] = h.get("schema:extended-child-store", 0) + 1
@@ -102,6 +119,11 @@ def histogram(case, impl, h):
         for op in tx.split(";"):
             k = "op:" + op.split(":")[0]
             h[k] = h.get(k, 0) + 1
+    if f[0] == "R":
+        for ctx_, itx in zip(f[_head(case):], impl.split(" ")):
+            for o, r in zip(ctx_.split(";"), itx.split("|")[0].split(";")):
+                if o.startswith("dt:") and "!" in r:
+                    h["refused-delete-tolerated:" + r.split("!", 1)[1]] = h.get("refused-delete-tolerated:" + r.split("!", 1)[1], 0) + 1
     for tx in impl.split(" "):
         p = tx.split("|")
         for r in p[0].split(";"):
@@ -122,7 +144,7 @@ def describe(case, impl, model, spec):
         for i, y in enumerate(x[1:], 1):
             if y in ("A", "B") and i == 1 and hd == 3:
                 out.append(y)
-            elif hd == 4 and (i == 1 or (x[0] not in G_STORE_OPS and i == 2) or (x[0] in ("cl", "u") and i == 3)):
+            elif hd == 4 and (i == 1 or (x[0] not in G_STORE_OPS and i == 2) or (x[0] in ("cl", "u", "cp") and i == 3) or (x[0] == "crl" and i == 4)):
                 out.append(y)
             elif hd != 4 and (x[0] == "set" and i == 4 or x[0] == "u" and i == 4):
                 out.append(y)
@@ -133,6 +155,8 @@ def describe(case, impl, model, spec):
         return ":".join(out)
     kind = {"G": "history over the schema " + (f[1] if len(f) > 1 else "") +
                  " (p/r<ca><cb>: plain / ref-counted collection between store A or its child a and store B or its child b; s<F><c>: self-referential collection)",
+            "R": "history over the schema " + (f[1] if len(f) > 1 else "") +
+                 " (as G; ~AB / ~BA: restricting fk A.ref -> B / B.ref -> A; dt = DeleteById whose refusal the caller tolerates, cr/crl = Create with the fk field, cp = Create through a child store persisting the parent's link field)",
             "H": "history (two stores A <-> B)", "X": "history outside the vocabulary (two stores; compared with the model only)",
             "S": "history (one store linked with itself through the same set symbol)"}.get(f[0], f[0])
     d = {"kind": kind, "transactions": [[op(o) for o in tx.split(";")] for tx in f[hd:]],
@@ -187,16 +211,25 @@ RULE = ("each case is a history of Db.Update transactions over two real stores w
         "of both ends of every collection, the schema-aware dump. After every "
         "transaction GetLinks/IterateLinks/IsLinked/GetLinkCount(s)/rc IterateLinks (both directions) for every pool "
         "entity on both sides and the canonicalised boltz.Traverse dump are compared; after a failing operation "
-        "the same view of the uncommitted state is compared with the model. non-trivial = some committed state "
+        "the same view of the uncommitted state is compared with the model. (6) R-cases: G-cases plus a restricting fk "
+        "between the root stores (AddNullableFkIndex, A->B or B->A), DeleteById whose refusal the caller tolerates (dt: the "
+        "transaction carries on and commits), Create with the fk field set, Create through a child store whose entity "
+        "strategy persists the parent's link field on GetParentContext(): refused stream (12 collection kinds x 2 fk "
+        "directions x delete through root / child store of a referenced entity with links or counts, then more operations "
+        "and a commit), cp stream (every subset of 3 current links x every request of <= 2 keys, 6 collection/store pairs; "
+        "quick: a third), 400 / 6000 random histories; the fk field values and back-reference sets are part of the dump. "
+        "non-trivial = some committed state "
         "holds a link or a count; distinct = distinct case lines")
 
 
 def _g_coll_field(op):
     """index of the ':'-field of a G-case operation that names a collection, or None"""
     x = op.split(":")
-    if x[0] in ("cl", "u"):
+    if x[0] in ("cl", "u", "cp"):
         return 3
-    if x[0] in ("c", "d"):
+    if x[0] == "crl":
+        return 4
+    if x[0] in ("c", "d", "cr", "dt"):
         return None
     return 1
 
@@ -207,6 +240,14 @@ def g_candidates(case):
     f = case.split(" ")
     out = [c for c in flow.history_candidates(case, lambda opc: G_LIST_FIELDS.get(opc, []), head_len=4)
            if c.split(" ")[1] == f[1] and c.split(" ")[2] and c.split(" ")[3]]
+    fk = ""
+    if "~" in f[1]:
+        # R-cases: the fk suffix is kept on every schema variant; without fk is a candidate too
+        fk = "~" + f[1].split("~", 1)[1]
+        f = [f[0], f[1].split("~", 1)[0]] + f[2:]
+        # (not when the history sets the fk field: cr / crl are only defined for a schema that declares the fk)
+        if fk != "~-" and not any(o.split(":")[0] in ("cr", "crl") for tx in f[4:] for o in tx.split(";")):
+            out.append(" ".join([f[0], f[1] + "~-"] + f[2:]))
     colls = [] if f[1] == "-" else f[1].split(",")
     ops = [o for tx in f[4:] for o in tx.split(";")]
     used = set()
@@ -224,9 +265,9 @@ def g_candidates(case):
             base, v = colls[j].split(".", 1)
             alts = [base] + ([base + "." + v[0] + "0", base + ".0" + v[1]] if len(v) == 2 and "0" not in v else [])
             for alt in alts:
-                out.append(" ".join([f[0], ",".join(colls[:j] + [alt] + colls[j + 1:]) + flags, f[2], f[3]] + f[4:]))
+                out.append(" ".join([f[0], ",".join(colls[:j] + [alt] + colls[j + 1:]) + flags + fk, f[2], f[3]] + f[4:]))
     if flags:
-        out.append(" ".join([f[0], (",".join(colls) if colls else "-"), f[2], f[3]] + f[4:]))
+        out.append(" ".join([f[0], (",".join(colls) if colls else "-") + fk, f[2], f[3]] + f[4:]))
     for j in range(len(colls)):
         if j in used:
             continue
@@ -241,7 +282,7 @@ def g_candidates(case):
                 x[i] = str(int(x[i]) - 1)
             return ":".join(x)
         txs = [";".join(renum(o) for o in tx.split(";")) for tx in f[4:]]
-        out.append(" ".join([f[0], (",".join(rest) if rest else "-") + flags, f[2], f[3]] + txs))
+        out.append(" ".join([f[0], (",".join(rest) if rest else "-") + flags + fk, f[2], f[3]] + txs))
     return out
 
 
@@ -291,7 +332,7 @@ def g_large_candidates(case):
 def candidates(case):
     if case.startswith("G ") and len(case) > 3000:
         return g_large_candidates(case)
-    if case.startswith("G "):
+    if _is_g(case):
         return g_candidates(case)
     if case.startswith("S "):
         # one pool, no side field: key lists sit one field earlier
@@ -308,6 +349,7 @@ def run(ctx, replay_cases=None):
         "failing operations are followed by a rollback of their transaction (Db.Update); the model also reproduces the uncommitted partial writes",
         "extended child stores (fix c784f90): EntityDeleted returns nil when the collection's store has no entity bucket, so no modelled function depends on the Extended() flag; the harness wires it and the correspondence checks that",
         "schema-parametrised cases (G-cases): modelled by C05/Schema.lean (entity buckets of four stores, one slot of the two-store / self model per declared collection, Create/Update/DeleteById/cleanupLinks over the registries); its spec is C05/SchemaSpec.lean (one relation / count map per collection, delete removes every pair mentioning the id from every collection of the family); child stores are plain (non-extended) with a ChildStoreUpdateHandler whose mapper declines updates; G histories stay inside the count vocabulary",
+        "R-cases (C05/Restrict.lean): one nullable restricting fk between the root stores (A->B or B->A, never both, no self-referring fk: then no store carries both an fkIndex and an fkDeleteConstraint and a refused delete is preceded by no write); the only failure a history carries on after is a refused DeleteById (dt); failures with partial link writes (missing link target, missing fk target) always roll back; fk targets are never the empty key",
         "self-referential wiring (S-cases, one store linked with itself through the same set symbol): modelled by C05/SelfW.lean (same state and bucket primitives, one side; EntityDeleted = fold over the collected keys, as repaired in b23d525); its spec line is the same proved model in the spec's normalised form; ref-counted self-referential collections are not in the harness universe",
     ]
     return flow.flow(ctx, "c05", MODULE, THEOREMS, MATCHERS, normalise=normalise, nontrivial=nontrivial,
